@@ -359,6 +359,10 @@ func (g *cgGen) key(s string) string {
 
 func (g *cgGen) yaml(d *cgDoc) string {
 	var b strings.Builder
+	if len(d.Objs) == 0 && g.r.Intn(3) == 0 {
+		// no objects, written as a file that contains no YAML document at all
+		return []string{"", "\n", "\n\n", "# nothing to generate\n", "  # only a comment\n\n", "---\n", "~\n", "{}\n", "steps: {}\n"}[g.r.Intn(9)]
+	}
 	if g.r.Intn(3) == 0 {
 		b.WriteString("version: v0.2.0\n")
 	}
@@ -379,6 +383,11 @@ func (g *cgGen) yaml(d *cgDoc) string {
 	}
 	b.WriteString("      objects:\n")
 	for _, o := range d.Objs {
+		if len(o.Props) == 0 && g.r.Intn(3) == 0 {
+			// an object without properties written with a null body: the key alone, or an explicit null
+			b.WriteString("        " + g.key(o.Name) + ":" + []string{"", " ~", " null"}[g.r.Intn(3)] + "\n")
+			continue
+		}
 		b.WriteString("        " + g.key(o.Name) + ":\n")
 		b.WriteString("          id: " + g.key(o.Name) + "\n")
 		if len(o.Props) == 0 {
